@@ -17,10 +17,13 @@
       unknown away from the header: `RecordsSectionOffsetUnknown`, nothing changed; straight after the
       header: forward skip);
     * `offsets_grow` : record offsets grow along the pass.
-  Panics are excluded by hypothesis here (`NoPanic`); C01/C17 are about them.  Helper lemmas:
-  Rsdns/Lemmas/History.lean.
+  `run_conforming` excludes panics by hypothesis (`NoPanic`); `run_documented` discharges that
+  hypothesis with C01's invariant (`Sane`, Rsdns/Lemmas/ReaderSafe.lean): along a history that follows
+  the documented order no call panics, so the conclusion holds for the documented protocol alone.
+  Helper lemmas: Rsdns/Lemmas/History.lean.
 -/
 import Rsdns.Lemmas.History
+import Rsdns.Lemmas.ReaderSafe
 
 set_option linter.unusedVariables false
 
@@ -72,6 +75,44 @@ theorem run_conforming (msg : Bytes) (L : Lay) (hL : L.WF) (hP : PassAll msg L) 
     obtain ⟨m1, hle, hS1, hG1⟩ := sit_step msg L hL hP r p maxc hS hG op ha hnp
     obtain ⟨p', m2, hle2, hS2, hG2⟩ := ih _ _ m1 hS1 hG1 hrest
     exact ⟨p', m2, by omega, by simpa [Reader.run] using hS2, by simpa [Reader.run] using hG2⟩
+
+/-- a call history in the documented order (`Allowed` at every call) — no other assumption -/
+def Documented (msg : Bytes) : Reader → Option Marker → List Op → Prop
+  | _, _, [] => True
+  | r, p, op :: ops =>
+    Allowed r p op ∧ Documented msg (r.step msg op).2 (nextPend p op (r.step msg op).1) ops
+
+theorem noPanic_of_safe {x : Res Val × Reader} (h : x.1.safe) : NoPanic x := by
+  intro p hp
+  rw [hp] at h
+  exact h
+
+/-- **histories of any length, documented order only.**  `run_conforming` without its `NoPanic`
+    hypothesis: along every history in the documented order over a skippable message every call
+    returns a value or an error, and the reader stays in a situation of the pass with the documented
+    seek criterion in force. -/
+theorem run_documented (msg : Bytes) (L : Lay) (hL : L.WF) (hP : PassAll msg L) :
+    ∀ (ops : List Op) (r : Reader) (p : Option Marker) (maxc : Nat), Sit msg L r p → Ghost L r maxc →
+      Sane msg r p → Documented msg r p ops →
+      (∀ o ∈ (Reader.run msg r ops).1, o.safe) ∧
+      ∃ p' maxc', maxc ≤ maxc' ∧ Sit msg L (Reader.run msg r ops).2 p' ∧ Ghost L (Reader.run msg r ops).2 maxc' := by
+  intro ops
+  induction ops with
+  | nil =>
+    intro r p maxc hS hG _ _
+    exact ⟨fun o ho => by simp [Reader.run] at ho, p, maxc, Nat.le_refl _, hS, hG⟩
+  | cons op ops ih =>
+    intro r p maxc hS hG hN hC
+    obtain ⟨ha, hrest⟩ := hC
+    obtain ⟨hsafe, hN1⟩ := step_sane hN op (Permitted.of_allowed ha)
+    obtain ⟨m1, hle, hS1, hG1⟩ := sit_step msg L hL hP r p maxc hS hG op ha (noPanic_of_safe hsafe)
+    obtain ⟨hall, p', m2, hle2, hS2, hG2⟩ := ih _ _ m1 hS1 hG1 hN1 hrest
+    refine ⟨?_, p', m2, by omega, by simpa [Reader.run] using hS2, by simpa [Reader.run] using hG2⟩
+    intro o ho
+    simp only [Reader.run, List.mem_cons] at ho
+    rcases ho with rfl | ho
+    · exact hsafe
+    · exact hall o ho
 
 /-- **seek succeeds whenever the documentation says so.**  In a live situation whose high-water mark
     covers everything in front of section `s` (and at least one item), `seek(s)` succeeds and the reader
@@ -134,5 +175,23 @@ theorem sit_after_header (msg : Bytes) (L : Lay) (hL : L.WF) (hP : PassAll msg L
     · exact Sit.ques _ hQ (by rw [htr]; simp [Tracker.set, Tracker.default]; omega) (fun j => by rw [htr]; rfl)
   · simp [he, markDone] at hh
 
+/-- **start (panic-freedom invariant).** After `new` and `header()` the invariant `Sane` of
+    `run_documented` holds, whatever the bytes. -/
+theorem sane_after_header (msg : Bytes) (r0 : Reader) (h0 : Reader.new msg = .ok r0) :
+    Sane msg (r0.header msg).2 none := by
+  have ht : r0.tr = Tracker.default := by
+    unfold Reader.new at h0
+    split at h0
+    · simp at h0
+    · simp only [Res.ok.injEq] at h0; rw [← h0]
+  have hh := header_rout (RInv.new h0) ht
+  cases hx : r0.header msg with
+  | mk res r1 =>
+    rw [hx] at hh
+    cases res with
+    | ok h => exact ⟨hh, fun m hm => by cases hm⟩
+    | err e => exact ⟨hh, fun m hm => by cases hm⟩
+    | panic p => exact hh.elim
+    | ub => exact hh.elim
 
 end Rsdns.C09
